@@ -73,7 +73,8 @@ def defs():
         needs_history: ClassVar[bool] = False
         identifier: str = ""
 
-        def __init__(self, kid, position_keys, shapes):
+        def __init__(self, kid, position_keys, shapes, needs_history=False):
+            self.needs_history = bool(needs_history)   # instance attribute shadows the class default
             self.kid = int(kid)
             self.position_keys = tuple(position_keys)
             self.shapes = dict(shapes)          # key -> shape tuple
@@ -134,7 +135,35 @@ def defs():
             return StampQuant(jnp.int32(0), jnp.asarray(model_state["c"] * 2 + self.gid, dtype=jnp.int32),
                               jnp.asarray(epoch.nth_epoch * 1000 + epoch.time_in_epoch, dtype=jnp.int32))
 
-    _defs.update(StampKernel=StampKernel, StampGen=StampGen, StampKState=StampKState,
+    class DerivedInterface:
+        """A user-defined ModelInterface over a dict state whose extract_position COMPUTES some tracked
+        quantities from the state of one chain (not a plain lookup):
+            "cs_<k>"  cumulative sum over the flattened entries of state[k] (same shape)
+            "ct_<k>"  state[k] * size - sum(state[k])   (integer centring)
+        every other key is looked up.  update_state / log_prob as DictInterface."""
+
+        def extract_position(self, position_keys, model_state):
+            out = {}
+            for k in position_keys:
+                if k.startswith("cs_"):
+                    x = model_state[k[3:]]
+                    out[k] = jnp.cumsum(x.reshape(-1)).reshape(x.shape).astype(jnp.int32)
+                elif k.startswith("ct_"):
+                    x = model_state[k[3:]]
+                    out[k] = (x * x.size - jnp.sum(x)).astype(jnp.int32)
+                else:
+                    out[k] = model_state[k]
+            return out
+
+        def update_state(self, position, model_state):
+            new = dict(model_state)
+            new.update(position)
+            return new
+
+        def log_prob(self, model_state):
+            return 0.0
+
+    _defs.update(DerivedInterface=DerivedInterface, StampKernel=StampKernel, StampGen=StampGen, StampKState=StampKState,
                  StampInfo=StampInfo, StampQuant=StampQuant)
     return _defs
 
@@ -167,7 +196,8 @@ def run_config(cfg):
     state = {"c": jnp.zeros((nch,), jnp.int32), "cid": jnp.arange(nch, dtype=jnp.int32),
              "junk": jnp.full((nch,), 77, jnp.int32), "acc": jnp.zeros((nch,), jnp.int32)}
     for i, keys in enumerate(cfg["kernels"]):
-        kernels.append(d["StampKernel"](i + 1, [k for k, _ in keys], {k: SHAPES[s] for k, s in keys}))
+        nh = bool(cfg.get("needs_hist", [])[i]) if i < len(cfg.get("needs_hist", [])) else False
+        kernels.append(d["StampKernel"](i + 1, [k for k, _ in keys], {k: SHAPES[s] for k, s in keys}, nh))
         for k, s in keys:
             n = size_of(s)
             base = -(jnp.arange(nch, dtype=jnp.int32)[:, None] * 8 + 8) - jnp.arange(n, dtype=jnp.int32)[None, :]
@@ -177,7 +207,7 @@ def run_config(cfg):
         base = -(jnp.arange(nch, dtype=jnp.int32)[:, None] * 8 + 8) - jnp.arange(n, dtype=jnp.int32)[None, :]
         state[k] = base.reshape((nch,) + SHAPES[s])
     gens = [d["StampGen"](g + 1) for g in range(cfg["ngens"])]
-    model = gs.DictInterface(lambda st: 0.0)
+    model = d["DerivedInterface"]() if cfg.get("iface") == "derived" else gs.DictInterface(lambda st: 0.0)
 
     out = {"error": None}
     drv = cfg.get("driver", "all")
@@ -245,39 +275,91 @@ def run_config(cfg):
     def pos_obs(p):
         return {k: {"shape": shp(v), "chains": flat(v)} for k, v in p.items()}
 
-    out["samples"] = pos_obs(res.get_samples())
-    try:
-        out["posterior"] = pos_obs(res.get_posterior_samples())
-    except RuntimeError:
-        out["posterior"] = None
-    tis = res.transition_infos.combine_all()
-    out["infos"] = None if tis.is_none() else {k: [[x[0] for x in ch] for ch in flat(v.stamp)] for k, v in tis.unwrap().items()}
-    out["infos_len_ok"] = None if tis.is_none() else all(
-        np.asarray(v.error_code).shape == np.asarray(v.stamp).shape for v in tis.unwrap().values())
-    try:
-        pti = res.get_posterior_transition_infos()
-        out["post_infos"] = {k: [[x[0] for x in ch] for ch in flat(v.stamp)] for k, v in pti.items()}
-    except RuntimeError:
-        out["post_infos"] = None
-    if res.kernel_states.is_some():
-        ks = res.kernel_states.unwrap().combine_all().unwrap()
-        out["kstates"] = [{"last": [[x[0] for x in ch] for ch in flat(k.last)],
-                           "ntrans": [[x[0] for x in ch] for ch in flat(k.ntrans)],
-                           "nstart": [[x[0] for x in ch] for ch in flat(k.nstart)]} for k in ks]
-    else:
-        out["kstates"] = None
-    if res.generated_quantities.is_some():
-        gq = res.generated_quantities.unwrap()
-        allq = gq.combine_all().unwrap()
-        out["quants"] = {k: {"val": [[x[0] for x in ch] for ch in flat(v.val)],
-                             "ep": [[x[0] for x in ch] for ch in flat(v.ep)]} for k, v in allq.items()}
-        pq = gq.combine_filtered(lambda c: c.type == EpochType.POSTERIOR)
-        out["post_quants"] = None if pq.is_none() else {
-            k: {"val": [[x[0] for x in ch] for ch in flat(v.val)],
-                "ep": [[x[0] for x in ch] for ch in flat(v.ep)]} for k, v in pq.unwrap().items()}
-    else:
-        out["quants"] = None
-        out["post_quants"] = None
+    def observe():
+        """read every accessor once; returns (plain observation, the containers the accessors returned)"""
+        ob, got = {}, []
+        raw = res.get_samples()
+        got.append(raw)
+        ob["samples"] = pos_obs(raw)
+        try:
+            raw = res.get_posterior_samples()
+            got.append(raw)
+            ob["posterior"] = pos_obs(raw)
+        except RuntimeError:
+            ob["posterior"] = None
+        tis = res.transition_infos.combine_all()
+        if tis.is_some():
+            got.append(tis.unwrap())
+        ob["infos"] = None if tis.is_none() else {k: [[x[0] for x in ch] for ch in flat(v.stamp)] for k, v in tis.unwrap().items()}
+        ob["infos_len_ok"] = None if tis.is_none() else all(
+            np.asarray(v.error_code).shape == np.asarray(v.stamp).shape for v in tis.unwrap().values())
+        try:
+            pti = res.get_posterior_transition_infos()
+            got.append(pti)
+            ob["post_infos"] = {k: [[x[0] for x in ch] for ch in flat(v.stamp)] for k, v in pti.items()}
+        except RuntimeError:
+            ob["post_infos"] = None
+        if res.kernel_states.is_some():
+            ks = res.kernel_states.unwrap().combine_all().unwrap()
+            got.append(ks)
+            ob["kstates"] = [{"last": [[x[0] for x in ch] for ch in flat(k.last)],
+                               "ntrans": [[x[0] for x in ch] for ch in flat(k.ntrans)],
+                               "nstart": [[x[0] for x in ch] for ch in flat(k.nstart)]} for k in ks]
+        else:
+            ob["kstates"] = None
+        if res.generated_quantities.is_some():
+            gq = res.generated_quantities.unwrap()
+            allq = gq.combine_all().unwrap()
+            got.append(allq)
+            ob["quants"] = {k: {"val": [[x[0] for x in ch] for ch in flat(v.val)],
+                                 "ep": [[x[0] for x in ch] for ch in flat(v.ep)]} for k, v in allq.items()}
+            pq = gq.combine_filtered(lambda c: c.type == EpochType.POSTERIOR)
+            if pq.is_some():
+                got.append(pq.unwrap())
+            ob["post_quants"] = None if pq.is_none() else {
+                k: {"val": [[x[0] for x in ch] for ch in flat(v.val)],
+                    "ep": [[x[0] for x in ch] for ch in flat(v.ep)]} for k, v in pq.unwrap().items()}
+        else:
+            ob["quants"] = None
+            ob["post_quants"] = None
+        return ob, got
+
+    def edit_in_place(c):
+        """ordinary post-processing of a returned container: add an entry, replace one, delete one"""
+        spoil = lambda t: jax.tree_util.tree_map(lambda a: a * 0 - 7, t)     # noqa: E731
+        if isinstance(c, dict) and c:
+            ks = list(c)
+            c["__added__"] = c[ks[0]]
+            if len(ks) > 1:
+                c[ks[0]] = spoil(c[ks[0]])
+            del c[ks[-1]]
+        elif isinstance(c, list) and c:
+            c[0] = spoil(c[0])
+            c.append(c[0])
+
+    first, containers = observe()
+    out.update(first)
+    if cfg.get("reread", True):
+        # history: get, edit the returned containers in place, get again - the accessors are functions of the
+        # stored chains, so the second read must be what the first one was (and what the model says)
+        done = []
+        for c in containers:
+            if not any(c is x for x in done):      # two accessors may hand out the very same object
+                edit_in_place(c)
+                done.append(c)
+        try:
+            second, _ = observe()
+        except Exception as ex:      # the corrupted store cannot even be decoded
+            second = {"undecodable": repr(ex)[:200]}
+        diff = [k for k in first if first[k] != second.get(k)]
+        out["reread_diff"] = diff
+        if diff:
+            # the observation handed on (to the oracle and to the Coq shard) is the LATEST read
+            out["first_read"] = {k: first[k] for k in diff[:2]}
+            if "undecodable" in second:
+                out["undecodable"] = second["undecodable"]
+            else:
+                out.update(second)
     return out
 
 
